@@ -175,6 +175,12 @@ def eoq_with_disruptions(fixed_cost, holding_cost, stockout_cost, demand_rate,
 												disruption_rate, recovery_rate)
 		lo = order_quantity_approx / 10
 		hi = order_quantity_approx * 10
+		# Widen the search interval until it brackets the minimizer. (The approximate solution can be
+		# far from the exact one, e.g., if the fixed cost is small and the holding cost is large.)
+		while f(lo) < f(lo * 1.01) and lo > 1e-12 * order_quantity_approx:
+			lo /= 10
+		while f(hi) < f(hi / 1.01) and hi < 1e12 * order_quantity_approx:
+			hi *= 10
 		order_quantity, cost = golden_section_search(f, lo, hi, verbose=False)
 
 	return order_quantity, cost
